@@ -424,3 +424,75 @@ func regexpGroupsAll(s, re string) []string {
 	}
 	return out
 }
+
+// ResolveConst follows an expression to the named constant it always evaluates to: the
+// constant itself, a conversion of it, a local with a single definition, or a call of a
+// function of the same package whose body is one return statement (transitively).
+func ResolveConst(p *packages.Package, scope *ast.FuncDecl, e ast.Expr, depth int) *types.Const {
+	if depth > 5 || e == nil {
+		return nil
+	}
+	info := p.TypesInfo
+	e = ast.Unparen(e)
+	if k := ConstOf(info, e); k != nil {
+		return k
+	}
+	switch x := e.(type) {
+	case *ast.CallExpr:
+		if tv, ok := info.Types[x.Fun]; ok && tv.IsType() && len(x.Args) == 1 {
+			return ResolveConst(p, scope, x.Args[0], depth+1)
+		}
+		if fn := CalleeOf(info, x); fn != nil && fn.Pkg() == p.Types {
+			for _, fd := range AllFuncDecls(p) {
+				if info.Defs[fd.Name] == fn && fd.Body != nil {
+					return constOfBody(p, fd, depth+1)
+				}
+			}
+		}
+	case *ast.Ident:
+		obj := info.Uses[x]
+		if obj == nil || scope == nil {
+			return nil
+		}
+		var defs []ast.Expr
+		ast.Inspect(scope, func(n ast.Node) bool {
+			switch s := n.(type) {
+			case *ast.AssignStmt:
+				for i, l := range s.Lhs {
+					if id, ok := l.(*ast.Ident); ok && (info.Defs[id] == obj || info.Uses[id] == obj) && i < len(s.Rhs) && len(s.Lhs) == len(s.Rhs) {
+						defs = append(defs, s.Rhs[i])
+					}
+				}
+			case *ast.ValueSpec:
+				for i, nme := range s.Names {
+					if info.Defs[nme] == obj && i < len(s.Values) {
+						defs = append(defs, s.Values[i])
+					}
+				}
+			}
+			return true
+		})
+		if len(defs) == 1 {
+			return ResolveConst(p, scope, defs[0], depth+1)
+		}
+	}
+	return nil
+}
+
+// constOfBody: the function's only return statement yields one constant.
+func constOfBody(p *packages.Package, fd *ast.FuncDecl, depth int) *types.Const {
+	var rets []*ast.ReturnStmt
+	ast.Inspect(fd.Body, func(n ast.Node) bool {
+		if _, ok := n.(*ast.FuncLit); ok {
+			return false
+		}
+		if r, ok := n.(*ast.ReturnStmt); ok {
+			rets = append(rets, r)
+		}
+		return true
+	})
+	if len(rets) != 1 || len(rets[0].Results) != 1 {
+		return nil
+	}
+	return ResolveConst(p, fd, rets[0].Results[0], depth)
+}
